@@ -51,6 +51,11 @@ package document
 //@   invariant 0 <= #i && #i <= len(varMatches) && unchangedHeap() && (cap(newRuns) == 0 || arr(newRuns) >= old(allocBound()))
 //@   invariant 0 <= currentPos && currentPos <= len(originalText)
 //@   invariant forall j int :: #i <= j && j < len(varMatches) ==> currentPos <= varMatches[j][0]
+// C18 "variable placeholders without data stay visible" (as far as the regexp model allows; checked with C17): in every
+// iteration whose variable name - the text of group 1 of the match - is not a key of data.Variables, the run appended last
+// carries the placeholder text itself, originalText[match start : match end]. (The conditional pass that follows may still
+// rewrite run texts; what it matches is regexp semantics.)
+//@   invariant #i >= 1 && !has(data.Variables, originalText[varMatches[#i-1][2]:varMatches[#i-1][3]]) ==> len(newRuns) >= 1 && newRuns[len(newRuns)-1].Text.Content == originalText[varMatches[#i-1][0]:varMatches[#i-1][1]]
 //@   decreases len(varMatches) - #i
 
 //@ func (*TemplateEngine).processNonTableLoops
@@ -92,12 +97,18 @@ package document
 //@   invariant (forall k int :: 0 <= k && k < #i ==> para.Runs[k].Text.Content == "") ==> len(runInfos) == 0
 //@   decreases len(para.Runs) - #i
 
+// C18: the text pieces a paragraph is split into around a picture keep the paragraph's formatting - the new paragraph's
+// properties are a deep copy of the original's, it has exactly one run carrying the text, and that run has the formatting
+// of the original's first run (a plain run when the original had none).
 //@ func (*TemplateEngine).createTextParagraph
-//@ props C17
-//@ ignore-ensures deepcopy
+//@ props C17, C18
 //@ requires te != nil && originalPara != nil
 //@ modifies nothing
 //@ ensures fresh(result) && !isElem(result)
+//@ ensures deepcopy(result.Properties, originalPara.Properties)
+//@ ensures len(result.Runs) == 1 && result.Runs[0].Text.Content == text
+//@ ensures len(originalPara.Runs) > 0 ==> deepcopy(result.Runs[0].Properties, originalPara.Runs[0].Properties)
+//@ ensures len(originalPara.Runs) == 0 ==> result.Runs[0].Properties == nil
 
 // ---- tables ---------------------------------------------------------------------------------------------
 // tableRoot(t, b): the table object (or the array cell holding it) and its row array lie at or above b.
@@ -630,6 +641,9 @@ package document
 // and picture passes that follow, see their contracts).
 //@   invariant doc.Body == atLoop(1, doc.Body) && doc.Body.Elements == atLoop(1, doc.Body.Elements)
 //@   invariant forall j int :: 0 <= j && j < len(doc.Body.Elements) ==> doc.Body.Elements[j] == atLoop(1, doc.Body.Elements[j])
+//@   invariant doc.parts == atLoop(1, doc.parts) && doc.documentRelationships == atLoop(1, doc.documentRelationships) && doc.contentTypes == atLoop(1, doc.contentTypes) && doc.nextImageID == atLoop(1, doc.nextImageID)
+//@   invariant doc.documentRelationships != nil ==> doc.documentRelationships.Relationships == atLoop(1, doc.documentRelationships.Relationships)
+//@   invariant doc.contentTypes != nil ==> doc.contentTypes.Defaults == atLoop(1, doc.contentTypes.Defaults) && doc.contentTypes.Overrides == atLoop(1, doc.contentTypes.Overrides)
 //@   invariant 0 <= #i && #i <= len(doc.Body.Elements)
 //@   decreases len(doc.Body.Elements) - #i
 
